@@ -1,5 +1,7 @@
 (* C03 — Pressing a chord fires exactly the last-listed satisfied mapping.
    Statements only. *)
+From TM Require ModifierSpec SpecTables.
+From TMGen Require Modifiers.
 From TM Require Import Base Mapper Monitors Trace MapperInv MapperProps MapperFire MapperNoAbs MapperChoice.
 
 (* For EVERY accepted layout WITHOUT absorbing mappings, EVERY history h (so:
@@ -50,6 +52,15 @@ Proof.
   exact (fired_eq_choice L _ k _ Hwf Hc Hse Hk).
 Qed.
 Print Assumptions C03_fired_is_spec_choice.
+
+(* "Modifier" in this property means one of the eight standard modifiers
+   (SpecTables.spec_modifier_keys: left/right Shift, Ctrl, Alt, Meta): the
+   classification the code uses (is_action_key, regenerated from /repo on every
+   run) is exactly that one.  (The theorems above hold for every classification.) *)
+Theorem C03_modifiers_are_the_standard_ones :
+  forall k : N, TMGen.Modifiers.is_action_key k = negb (SpecTables.spec_is_modifier k).
+Proof. exact ModifierSpec.is_action_key_is_spec. Qed.
+Print Assumptions C03_modifiers_are_the_standard_ones.
 
 (* Non-vacuity: two mappings end in J; with CAPSLOCK and LEFTSHIFT held the
    last-listed satisfied one ([CAPSLOCK, LEFTSHIFT, J] -> HOME) fires, with only
